@@ -246,8 +246,8 @@ func c08History(c *fw.Ctx, w *world, r *fw.Rand, steps int) {
 	}
 	var callSig []byte
 	obs := []c08Obs{{st: contents{}, oplen: 0}}
-	running := contents{}         // all events replayed from the start
-	var seenIDs []string          // ids of the events observed so far (append-only check)
+	running := contents{} // all events replayed from the start
+	var seenIDs []string  // ids of the events observed so far (append-only check)
 	sawUpdate, sawZero, sawMulti := false, false, false
 	txnStartLen := 0
 	observe := func(after string) bool {
